@@ -56,6 +56,8 @@ def features(cat, kind, rng):
 def kind_table(cat, seed):
     rows = []
     for k in cat.KINDS:
+        if (k.notes or "") == "axolotl-state":
+            continue        # entity-level kinds of the axolotl package (C09); their routing needs key state (C03)
         fs = []
         for s in range(4):
             try:
